@@ -34,7 +34,7 @@ fn contract_case(bias: &'static str, zero: bool) -> BoxedStrategy<SimCase> {
         sim_machines(3, &mp),
         sim_machines(3, &mp),
         sim_fracs(),
-        any::<u64>(),
+        seed(),
         (any::<bool>(), any::<bool>(), 150usize..1200),
     )
         .prop_map(|(trace, delay_ns, client, server, fracs, seed, (continue_after, hand_queue, iters))| SimCase {
